@@ -514,8 +514,13 @@ FAMILIES = {
 }
 
 
+def jobs_encode_mod():
+    import jobs_encode
+    return jobs_encode
+
+
 def history_job(eng, tables, prop, tname, steps, deadline, max_paths=None, initial=None, bfs=False, slice_s=None,
-                palette=(0, 1, 2, 3)):
+                palette=(0, 1, 2, 3), classes=None):
     """Builder call histories of length <= steps (setters and create/try-create helpers in any
     order), then build -> encode -> decode (Value level, byte level, tagged) -> verify/decrypt with
     the same or a different AAD."""
@@ -537,6 +542,8 @@ def history_job(eng, tables, prop, tname, steps, deadline, max_paths=None, initi
         ended_with_error = False
         rctx = None
         n_signers = 0
+        shadow_prot = jobs_encode_mod().mk_struct(I, "ProtectedHeader", original_data=Adt("Option", "None", []),
+                                                  header=refdec.RefDec(ctx, I, tables).empty_header())
         for i in range(steps):
             methods = ["protected", "unprotected", "create", "try_create"]
             if fam in ("sign1", "sign", "mac"):
@@ -545,7 +552,13 @@ def history_job(eng, tables, prop, tname, steps, deadline, max_paths=None, initi
                 methods += ["create_detached", "try_create_detached"]
             m = methods[ctx.choose(len(methods), "step%d" % i)]
             if m in ("protected", "unprotected"):
-                b = ctx.call("%s::%s" % (B, m), [b, header_palette(ctx, eng, tables, "s%d" % i)])
+                hdr = header_palette(ctx, eng, tables, "s%d" % i)
+                if m == "protected":
+                    # shadow model: a builder-made protected header is the header last set, never
+                    # bytes retained from anywhere
+                    shadow_prot = jobs_encode_mod().mk_struct(I, "ProtectedHeader", original_data=Adt("Option", "None", []),
+                                                              header=deep_clone(hdr))
+                b = ctx.call("%s::%s" % (B, m), [b, hdr])
                 if m == "protected" and created is not None:
                     dirty = True
             elif m == "payload":
@@ -606,7 +619,7 @@ def history_job(eng, tables, prop, tname, steps, deadline, max_paths=None, initi
                     return problems
                 # the bytes handed to the creator are the RFC 8152 structure of the builder's current
                 # state (so different protected headers / AAD / payload never share them)
-                curp = f_(I, cur, "protected")
+                curp = shadow_prot
                 if fam in ("sign1", "sign"):
                     pay = f_(I, cur, "payload")
                     tail_p = refenc.deref(args[1 if fam == "sign1" else 2]) if detached_m else \
@@ -723,6 +736,8 @@ def history_job(eng, tables, prop, tname, steps, deadline, max_paths=None, initi
                 return
             cls, what = out[1][0]
         else:
+            return
+        if classes is not None and not any(cls.startswith(c) for c in classes):
             return
         key = "%s:%s:%s" % (prop, tname, cls)
         seen[key] = seen.get(key, 0) + 1
